@@ -121,7 +121,7 @@ Theorem C01_sent_inputs_are_the_simulated_inputs :
       exists gh, nth_error gs (Z.to_nat pl) = Some gh /\ 0 <= f < hlen (fst gh) /\ hval (fst gh) f = v) /\
     (forall pl e gh f, 0 <= pl -> nth_error kinds (Z.to_nat pl) = Some (KRemote e) ->
       nth_error gs (Z.to_nat pl) = Some gh -> 0 <= f < hlen (fst gh) -> In (SRemote pl f (hval (fst gh) f)) ops) /\
-    ps_kinds p = kinds /\ OB p gs.
+    ps_kinds p = kinds /\ OB p gs /\ Forall (confirmed_ok gs) (all_adv_frames [] outs).
 Proof. exact sends_and_receipts_any. Qed.
 
 (* Two peers, no hypothesis about what they hold: A owns player h, B sees h as a remote player; each runs ANY
